@@ -1484,8 +1484,10 @@ def build_trace_cases(jobs):
                     events = []
                     res, _, _, stuck, _ = buildrt.run_schedule(sc, ov, dict(job["threads"]), list(p), gran, events=events, fault=fault)
                     for c in job.get("after", []):
-                        events.append({"ev": "start", "t": names[0]})
-                        events.append({"ev": "end", "t": names[0], "obs": sc.call(ov, c), "call": c})
+                        # the calls made afterwards are recorded like the others, build events included: when a fault rolled the
+                        # build back after the other thread had already been served, this call is the one that builds again
+                        buildrt.run_schedule(sc, ov, {names[0]: c}, [], gran, events=events)
+                        events[-1]["call"] = c
                     evs = []
                     bad = None
                     for e in events:
